@@ -17,6 +17,11 @@
   the parameter inside the instance (typer/src/typer/scopes.rs), how the exporter prints the argument at the call site
   (`generate_type_or_constant`) and the type name it prints for the parameter (hlsl/src/ast_generate.rs).
   `Thm.C04.template_const_as_modelled` compares them with `Model.FixpointTemplate`.
+* `NameReserve` — the life of `used_names_all_scopes` in `NameMap::build` (ir/src/name_generator.rs; seeded mutant C04-5):
+  every statement that touches the set the local pass avoids, in source order, with the loops around it.
+  `Thm.C04.generated_names_reserved_as_modelled` compares the trace with what `Model.Names.finish` / `assignSym` do: the
+  set exists before the per-scope loop, every generated candidate of every scope is recorded in it, the names of used
+  functions / globals follow, and the local pass tests and extends this very set.
 """
 import re
 
@@ -299,4 +304,68 @@ def register(gen, T):
         out.append("/-- type name printed for the value parameter of an instance, per kind of the argument (others: `todo!`) -/\n")
         out.append("def valueTypeNames : List (String × String) :=\n  " + T.lean_list('("%s", "%s")' % r for r in rows) + "\n\n")
         out.append(T.footer("TemplateConst"))
+        return "".join(out)
+
+    @gen("NameReserve")
+    def name_reserve():
+        from rustsrc import lean_str, impl_fn_body
+        ng = T.src("ir/src/name_generator.rs")
+        body = normws(impl_fn_body(ng, r'NameMap', "build"))
+        var = "used_names_all_scopes"
+        out = [T.header("NameReserve", ["ir/src/name_generator.rs"])]
+        # block structure: for every `{` the header text since the previous `;`, `{` or `}`
+        events = []
+        stack = []
+        last = 0
+        i = 0
+        n = len(body)
+        pending = []      # occurrences inside the current statement
+        while i < n:
+            c = body[i]
+            if body.startswith(var, i) and (i == 0 or not (body[i - 1].isalnum() or body[i - 1] == '_')) \
+                    and not (i + len(var) < n and (body[i + len(var)].isalnum() or body[i + len(var)] == '_')):
+                pending.append(i)
+                i += len(var)
+                continue
+            if c in ';{}':
+                stmt = body[last:i].strip()
+                if pending:
+                    loops = [h for h in stack if h.startswith(("for ", "loop", "while "))]
+                    conds = [h for h in stack if h.startswith("if ")]
+                    events.append((" > ".join(loops), " > ".join(conds), stmt + (c if c == ';' else '')))
+                    pending = []
+                if c == '{':
+                    stack.append(stmt)
+                elif c == '}':
+                    if not stack:
+                        raise ExtractError("NameMap::build: unbalanced braces")
+                    stack.pop()
+                last = i + 1
+            i += 1
+        if not events:
+            raise ExtractError("NameMap::build: `used_names_all_scopes` not found")
+        out.append("/-- every statement of `NameMap::build` that mentions `used_names_all_scopes`, in source order:\n"
+                   "    (enclosing loops, enclosing conditions, the statement or block header) -/\n"
+                   "def allScopesEvents : List (String × String × String) :=\n  " + T.lean_list(
+                       "(%s, %s, %s)" % (lean_str(a), lean_str(b), lean_str(c)) for a, b, c in events) + "\n\n")
+        # the loops of the function in source order (top level only): the per-scope loop comes before the usage loop and
+        # the local pass
+        tops = []
+        depth = 0
+        last = 0
+        for i, c in enumerate(body):
+            if c in ';{}':
+                stmt = body[last:i].strip()
+                if c == '{':
+                    if depth == 0 and stmt.startswith(("for ", "loop", "while ")):
+                        tops.append(stmt)
+                    depth += 1
+                elif c == '}':
+                    depth -= 1
+                elif depth == 0 and stmt.startswith("let ") and (var in stmt):
+                    tops.append(stmt + ";")
+                last = i + 1
+        out.append("/-- the top-level loops of `NameMap::build` and the declaration of the set, in source order -/\n"
+                   "def topLevelOrder : List String :=\n  " + T.lean_list(lean_str(t) for t in tops) + "\n")
+        out.append(T.footer("NameReserve"))
         return "".join(out)
